@@ -171,7 +171,7 @@ func pick(rng *rand.Rand, l []string) string { return l[rng.Intn(len(l))] }
 
 // quotedValue: a value between quotes, with runs of blanks and tabs inside.
 func quotedValue(rng *rand.Rand, multi bool) (src, val string, lit bool) {
-	words := []string{"ACT", "ONE", "x", "it is", "a:b", "k;l", "7", "Zoé"}
+	words := []string{"ACT", "ONE", "x", "it is", "a:b", "k;l", "7", "Zoé", "issue #12", "# x", "a#b", "#"}
 	gaps := []string{" ", "   ", "\t", " \t ", "  "}
 	n := 1 + rng.Intn(3)
 	var sb strings.Builder
